@@ -748,6 +748,21 @@ func C19(c *core.Ctx) {
 			_, path := core.FieldPath(v)
 			return len(path) > 0 && path[len(path)-1] == "Prefixes"
 		}
+		// (the mutations may sit in a worker split off Apply: the analysis runs in the
+		// function that holds them, whose result Apply hands on)
+		work := ap
+		for _, g := range core.Reach(ap) {
+			n := 0
+			core.Instrs(g, func(in ssa.Instruction) {
+				if mu, ok := in.(*ssa.MapUpdate); ok && isPfx(mu.Map) {
+					n++
+				}
+			})
+			if n > 0 && g != ap && g.Parent() == nil {
+				work = g
+			}
+		}
+		ap = work
 		var muts []ssa.Instruction
 		core.Instrs(ap, func(in ssa.Instruction) {
 			switch x := in.(type) {
